@@ -1156,7 +1156,8 @@ class Runner:
         if ao.cls in ("SelfAdjoint", "RDM") and bo.cls == "Operator":
             return
         ra, rb = self.raw(ao, "data"), self.raw(bo, "data")
-        if ra is None or rb is None or (numpy.iscomplexobj(rb) and not numpy.iscomplexobj(ra)) or self.cplx:
+        if ra is None or rb is None or (numpy.iscomplexobj(rb) and not numpy.iscomplexobj(ra)) or self.cplx \
+                or any(l.get("complexS") for l in self.levels):
             return      # numpy refuses to add complex numbers into a real array in place (not a basis matter)
         self.touch_probe(ao)
         self.touch_probe(bo)
